@@ -21,6 +21,8 @@ open AdaptaVerif.Model.Lifecycle AdaptaVerif.Spec.Lifecycle
 @[simp] theorem cons_releasePin (s : St) (p : Id) : (s.releasePin p).consolidate = s.consolidate := rfl
 @[simp] theorem cons_freeObstacle (s : St) (o : Id) : (s.freeObstacle o).consolidate = s.consolidate := rfl
 @[simp] theorem cons_freeConn (s : St) (c : Id) : (s.freeConn c).consolidate = s.consolidate := rfl
+@[simp] theorem cons_addCluster (s : St) (k : Id) : (s.addCluster k).consolidate = s.consolidate := rfl
+@[simp] theorem cons_freeCluster (s : St) (k : Id) : (s.freeCluster k).consolidate = s.consolidate := rfl
 @[simp] theorem cons_reroute (s : St) : (reroute s).consolidate = s.consolidate := rfl
 @[simp] theorem cons_setCheckpoints (s : St) (c : Id) (vs : List Id) :
     (s.setCheckpoints c vs).consolidate = s.consolidate := rfl
@@ -152,6 +154,26 @@ theorem nd_enqueue {s : St} (h : NoDanglingAction s) (t : AType) (o : Id)
     rcases ha with ha | rfl
     · exact h a ha
     · exact ⟨hS, hJ, fun x => absurd x hne⟩
+
+/-- `Router::modifyConnector(conn)`: a bare ConnChange for an allocated connector -/
+theorem nd_touch {s : St} (h : NoDanglingAction s) {c : Id} (hc : s.hasConn c = true) :
+    NoDanglingAction (s.enqueue .connChange c) := by
+  unfold St.enqueue
+  split
+  · exact h
+  · intro a ha
+    simp only [List.mem_append, List.mem_singleton] at ha
+    rcases ha with ha | rfl
+    · exact h a ha
+    · refine ⟨fun x => ?_, fun x => ?_, fun _ => ⟨hc, fun u hu => by cases hu⟩⟩
+      · rcases x with x | x | x <;> cases x
+      · rcases x with x | x | x <;> cases x
+
+theorem nd_clusters {s t : St} (h : NoDanglingAction s) (ha : t.actions = s.actions) (ho : t.obst = s.obst)
+    (hc : t.conns = s.conns) : NoDanglingAction t := by
+  refine nd_transfer h (fun a x => ha ▸ x) ?_ ?_ ?_ ?_ <;>
+  · intro o hh
+    simpa [St.hasShape, St.hasJunction, St.hasConn, St.hasObst, ho, hc] using hh
 
 theorem mem_mergeEnd {ends : List (Bool × EndSpec)} {d : Bool} {e : EndSpec} {pm : Bool}
     {u : Bool × EndSpec} (h : u ∈ mergeEnd ends d e pm) : u ∈ ends ∨ u = (d, e) := by
@@ -365,6 +387,40 @@ theorem nd_step {s : St} (h : NoDanglingAction s) (op : Op) (hl : LegalDoc s op 
       simp [St.removeFromQueue, St.freeObstacle, hl.2]
   | rNewJunction id pin => exact nd_addPin (nd_addObst h _ _ _) _ _ _
   | rNewConn id => exact nd_addConn h _ _
+  | newCluster id => exact nd_clusters h rfl rfl rfl
+  | deleteCluster id =>
+    dsimp only
+    split
+    · exact nd_addFault h _
+    · exact nd_clusters h rfl rfl rfl
+  | setClusterPoly id =>
+    dsimp only
+    split
+    · exact nd_addFault h _
+    · exact h
+  | touchConn c =>
+    dsimp only
+    split
+    · exact nd_addFault h _
+    · exact nd_maybeProcess (fun _ => nd_touch h hl)
+  | touchPin pin =>
+    dsimp only
+    split
+    · exact nd_addFault h _
+    · refine nd_maybeProcess (fun _ => nd_enqueue h _ _ ?_ ?_ (by decide))
+      · intro x; exact absurd x (not_shapeAct_of (by decide) (by decide) (by decide))
+      · intro x; exact absurd x (not_junctionAct_of (by decide) (by decide) (by decide))
+  | apiRouter => exact h
+  | apiConn c =>
+    dsimp only
+    split
+    · exact nd_addFault h _
+    · exact h
+  | apiObst o =>
+    dsimp only
+    split
+    · exact nd_addFault h _
+    · exact h
 
 theorem nd_run_from {s : St} (h : NoDanglingAction s) (ops : List Op)
     (hl : legalFrom LegalDoc s ops = true) : NoDanglingAction (ops.foldl step s) := by
@@ -425,6 +481,25 @@ theorem freeObsts_spec (l : List Obst) (s : St) :
       · exact hx1.2
       · exact hx2 c hc
 
+theorem freeClusters_spec (l : List Cluster) (s : St) :
+    (l.foldl (fun s k => s.freeCluster k.id) s).obst = s.obst ∧
+    (l.foldl (fun s k => s.freeCluster k.id) s).conns = s.conns ∧
+    (l.foldl (fun s k => s.freeCluster k.id) s).pins = s.pins ∧
+    ∀ x ∈ (l.foldl (fun s k => s.freeCluster k.id) s).clusters, x ∈ s.clusters ∧ ∀ k ∈ l, x.id ≠ k.id := by
+  induction l generalizing s with
+  | nil => exact ⟨rfl, rfl, rfl, fun x hx => ⟨hx, fun c hc => by cases hc⟩⟩
+  | cons a l ih =>
+    obtain ⟨h1, h2, h3, h4⟩ := ih (s.freeCluster a.id)
+    refine ⟨h1, h2, h3, ?_⟩
+    intro x hx
+    obtain ⟨hx1, hx2⟩ := h4 x hx
+    simp only [St.freeCluster, List.mem_filter, bne_iff_ne, ne_eq] at hx1
+    refine ⟨hx1.1, ?_⟩
+    intro c hc
+    rcases List.mem_cons.1 hc with rfl | hc
+    · exact hx1.2
+    · exact hx2 c hc
+
 theorem legal_deleteRouter {s : St} (hl : Legal s .deleteRouter = true) :
     s.alive = true ∧ (∀ o ∈ s.obst, o.active = true) ∧ (∀ c ∈ s.conns, c.active = true) := by
   simp only [Legal, LegalDoc, Bool.and_eq_true, List.all_eq_true, Bool.and_true] at hl
@@ -453,8 +528,20 @@ theorem allocated_deleteRouter {s : St} (h : Core [] s) (hl : Legal s .deleteRou
     rw [List.filter_eq_self, a1]; exact hO
   rw [hf2] at hcore ⊢
   obtain ⟨b1, b2, b3⟩ := freeObsts_spec s2.obst s2
-  generalize (s2.obst.foldl (fun s o => s.freeObstacle o.id) s2) = s3 at b1 b2 b3 hcore ⊢
+  have hc3 : Core [] (s2.obst.foldl (fun s o => s.freeObstacle o.id) s2) :=
+    core_freeObsts hc2 _ (List.Sublist.refl _)
+  generalize (s2.obst.foldl (fun s o => s.freeObstacle o.id) s2) = s3 at b1 b2 b3 hc3 hcore ⊢
+  have hf3 : s3.clusters.filter (·.active) = s3.clusters := by
+    rw [List.filter_eq_self]; exact hc3.clActive
+  rw [hf3] at hcore ⊢
+  obtain ⟨d1, d2, d3, d4⟩ := freeClusters_spec s3.clusters s3
+  generalize (s3.clusters.foldl (fun s k => s.freeCluster k.id) s3) = s4 at d1 d2 d3 d4 hcore ⊢
   refine ⟨rfl, ?_⟩
+  have hcl4 : s4.clusters = [] := by
+    rw [List.eq_nil_iff_forall_not_mem]
+    intro x hx
+    obtain ⟨hx1, hx2⟩ := d4 x hx
+    exact hx2 x hx1 rfl
   have hobst3 : s3.obst = [] := by
     rw [List.eq_nil_iff_forall_not_mem]
     intro x hx
@@ -468,7 +555,7 @@ theorem allocated_deleteRouter {s : St} (h : Core [] s) (hl : Legal s .deleteRou
     simp only [oids, List.mem_map] at this
     obtain ⟨o, ho, hoid⟩ := this
     exact hp2 o ho hoid.symm
-  simp [St.allocated, St.closeRouter, hobst3, hpins3, b1 hconns2]
+  simp [St.allocated, St.closeRouter, d1, d2, d3, hcl4, hobst3, hpins3, b1 hconns2]
 
 theorem allReleased_of {s : St} (h : Core [] s) (hal : s.alive = false) (ha : s.allocated = []) :
     AllReleased s := by
@@ -502,6 +589,8 @@ theorem legalFrom_append (L : St → Op → Bool) (s : St) (h : List Op) (op : O
 @[simp] theorem alive_releasePin (s : St) (p : Id) : (s.releasePin p).alive = s.alive := rfl
 @[simp] theorem alive_freeObstacle (s : St) (o : Id) : (s.freeObstacle o).alive = s.alive := rfl
 @[simp] theorem alive_freeConn (s : St) (c : Id) : (s.freeConn c).alive = s.alive := rfl
+@[simp] theorem alive_addCluster (s : St) (k : Id) : (s.addCluster k).alive = s.alive := rfl
+@[simp] theorem alive_freeCluster (s : St) (k : Id) : (s.freeCluster k).alive = s.alive := rfl
 @[simp] theorem alive_reroute (s : St) : (reroute s).alive = s.alive := rfl
 @[simp] theorem alive_setCheckpoints (s : St) (c : Id) (vs : List Id) :
     (s.setCheckpoints c vs).alive = s.alive := rfl
@@ -605,6 +694,14 @@ theorem alive_step (s : St) (op : Op) (hne : op ≠ .deleteRouter) : (step s op)
     | rDelJunction id => dsimp only; split <;> simp
     | rNewJunction id pin => simp
     | rNewConn id => simp
+    | newCluster id => simp
+    | deleteCluster id => dsimp only; split <;> simp
+    | setClusterPoly id => dsimp only; split <;> simp
+    | touchConn c => dsimp only; split <;> simp
+    | touchPin pin => dsimp only; split <;> simp
+    | apiRouter => rfl
+    | apiConn c => dsimp only; split <;> simp
+    | apiObst o => dsimp only; split <;> simp
 
 /-- strictly legal histories: once the router is gone nothing is left allocated -/
 theorem released_run_from {s : St} (h : Core [] s) (hinv : s.alive = false → s.allocated = [])
@@ -623,6 +720,49 @@ theorem released_run_from {s : St} (h : Core [] s) (hinv : s.alive = false → s
     intro hdead
     by_cases hop : op = .deleteRouter
     · subst hop; exact (allocated_deleteRouter h hl.1).2
+    · rw [alive_step s op hop, hal] at hdead; cases hdead
+
+/-! ### clusters: `~Router` leaves none, for every documented-legal history -/
+
+theorem clusters_deleteRouter {s : St} (h : Core [] s) (hal : s.alive = true) :
+    (step s .deleteRouter).clusters = [] := by
+  unfold step
+  rw [if_neg (by simp [hal])]
+  dsimp only
+  have hc3 : Core [] (List.foldl (fun s o => s.freeObstacle o.id)
+      (List.foldl (fun s c => s.freeConn c.id) s (s.conns.filter (·.active)))
+      ((List.foldl (fun s c => s.freeConn c.id) s (s.conns.filter (·.active))).obst.filter (·.active))) :=
+    core_freeObsts (core_freeConns h _ List.filter_sublist) _ List.filter_sublist
+  generalize (List.foldl (fun s o => s.freeObstacle o.id)
+      (List.foldl (fun s c => s.freeConn c.id) s (s.conns.filter (·.active)))
+      ((List.foldl (fun s c => s.freeConn c.id) s (s.conns.filter (·.active))).obst.filter (·.active))) = s3
+    at hc3 ⊢
+  have hf3 : s3.clusters.filter (·.active) = s3.clusters := by
+    rw [List.filter_eq_self]; exact hc3.clActive
+  rw [hf3]
+  obtain ⟨_, _, _, d4⟩ := freeClusters_spec s3.clusters s3
+  show (s3.clusters.foldl (fun s k => s.freeCluster k.id) s3).clusters = []
+  rw [List.eq_nil_iff_forall_not_mem]
+  intro x hx
+  obtain ⟨hx1, hx2⟩ := d4 x hx
+  exact hx2 x hx1 rfl
+
+theorem clusters_nil_of_dead {s : St} (h : Core [] s) (hinv : s.alive = false → s.clusters = [])
+    (ops : List Op) (hl : legalFrom LegalDoc s ops = true) :
+    (ops.foldl step s).alive = false → (ops.foldl step s).clusters = [] := by
+  induction ops generalizing s with
+  | nil => exact hinv
+  | cons op rest ih =>
+    simp only [legalFrom, Bool.and_eq_true] at hl
+    refine ih (core_step h op hl.1) ?_ hl.2
+    have hal : s.alive = true := by
+      have := hl.1
+      unfold LegalDoc at this
+      simp only [Bool.and_eq_true] at this
+      exact this.1
+    intro hdead
+    by_cases hop : op = .deleteRouter
+    · subst hop; exact clusters_deleteRouter h hal
     · rw [alive_step s op hop, hal] at hdead; cases hdead
 
 end AdaptaVerif.Lemmas.Lifecycle
